@@ -120,6 +120,8 @@ type Engine struct {
 	traceCalls   bool
 	mapReverse   bool
 	schedFork    bool
+	preemptLeft  int      // remaining preemptions on this path (verifPreemptions)
+	schedTrace   []string // preemptions taken on this path
 	enginePanic  string
 	initExplicit *ssa.Function
 	locks        map[*value]*lockSt
@@ -182,6 +184,8 @@ func (e *Engine) resetPath() {
 	e.fmtOpaque = nil
 	e.reportPanics = true
 	e.schedFork = false
+	e.preemptLeft = 0
+	e.schedTrace = nil
 	e.traceCalls = false
 	e.clockSymbolic = false
 	e.clockLast = nil
@@ -513,6 +517,9 @@ func (e *Engine) recordViolation(label, kind, detail string, m Model) {
 		}
 	}
 	v.Order = append([]string(nil), e.varOrder...)
+	if len(e.schedTrace) > 0 {
+		v.Detail += " [schedule: " + strings.Join(e.schedTrace, "; ") + "]"
+	}
 	v.Trace = e.stack()
 	if kind != "assert" && len(e.lastPanicStack) > 0 {
 		v.Trace = e.lastPanicStack
